@@ -4,6 +4,47 @@ import graphs as G, samplecorr as SC, exact as X
 from fractions import Fraction as Fr
 
 
+def energy_and_shift(c, fi):
+    """exact-rational oracle on the implementation's outputs: returns None when the case is outside the property's
+    quantifier (degenerate or ill conditioned), else (bad messages, sample info)"""
+    n = SC.case_numbers(c)
+    D, L, E = c["D"], c["L"], n["E"]
+    allv = SC.floats(fi["x"]) + SC.floats(fi["loop_momenta"]) + SC.floats(fi["q_vectors"]) + [b2f(fi["lambda"]), b2f(fi["v"])]
+    if not all(math.isfinite(t) for t in allv) or b2f(fi["v"]) <= 0 or not all(t > 0 for t in SC.floats(fi["x"])):
+        return None          # degenerate kinematics (V = 0) or over/underflowed parameters: outside the property's quantifier
+    x = [Fr(b2f(v)) for v in fi["x"]]
+    lam = Fr(b2f(fi["lambda"]))
+    q = [Fr(v) for v in SC.floats(fi["q_vectors"])]
+    k = [Fr(v) for v in SC.floats(fi["loop_momenta"])]
+    v = Fr(b2f(fi["v"]))
+    shifts = [[Fr(s) for s in sh] for sh in n["shifts"]]
+    masses = [Fr(mm) for mm in n["masses"]]
+    Lx = X.l_matrix(x, n["sig"])
+    kappa = X.cond_estimate(Lx)
+    vex, ratio, _, inv, us = X.v_poly(x, n["sig"], shifts, masses)
+    if kappa is None or kappa > Fr(10) ** 8 or ratio is None or ratio > Fr(10) ** 8 or lam <= 0:
+        return None
+    # energy identity: sum_e x_e (|q_e|^2 + m_e^2) = v (1 + |q|^2 / (2 lambda)),  q_e = sum_l S_el k_l + p_e
+    lhs = Fr(0)
+    for e in range(E):
+        qe = [sum(n["sig"][e][l] * k[l * D + d] for l in range(L)) + shifts[e][d] for d in range(D)]
+        lhs += x[e] * (sum(t * t for t in qe) + masses[e] ** 2)
+    rhs = v * (1 + sum(t * t for t in q) / (2 * lam))
+    tol = 1e-10 * float(kappa) * float(ratio)
+    bad = []
+    if not rel_close(float(lhs), float(rhs), max(tol, 1e-10)):
+        bad.append("sum x_e(|q_e|^2+m_e^2) = %r but v(1+|q|^2/(2 lambda)) = %r [kappa %.3g]" % (float(lhs), float(rhs), float(kappa)))
+    # shift = L^-1 u
+    sh = SC.floats(fi["shift"])
+    for l in range(L):
+        for d in range(D):
+            ex = sum(inv[l][j] * us[j][d] for j in range(L))
+            scale = float(sum(abs(inv[l][j] * us[j][d]) for j in range(L))) + 1e-300
+            if abs(sh[l * D + d] - float(ex)) > 1e-11 * float(kappa) * scale:
+                bad.append("shift[%d][%d] = %r, (L^-1 u) = %r" % (l, d, sh[l * D + d], float(ex)))
+    return bad, dict(family=c["family"], L=L, D=D, lambda_=float(lam), energy_lhs=float(lhs), energy_rhs=float(rhs))
+
+
 def run(rep, rng, tier, replay=None):
     extra = [replay["chosen"]["case"]] if replay and replay.get("chosen", {}).get("case") else []
     got = SC.standard_run(rep, rng, tier, "C10", ["loop_momenta", "shift"], 1e-9, n_quick=70, n_thorough=500,
@@ -30,46 +71,14 @@ def run(rep, rng, tier, replay=None):
             rep.violation("correspondence", "; ".join(msgs[:3]), case=c)
     skipped = 0
     for c, fi, m, o, timpl in got:
-        n = SC.case_numbers(c)
-        D, L, E = c["D"], c["L"], n["E"]
-        allv = SC.floats(fi["x"]) + SC.floats(fi["loop_momenta"]) + SC.floats(fi["q_vectors"]) + [b2f(fi["lambda"]), b2f(fi["v"])]
-        if not all(math.isfinite(t) for t in allv) or b2f(fi["v"]) <= 0:
-            skipped += 1          # degenerate kinematics (V = 0): outside the property's quantifier
-            continue
-        x = [Fr(b2f(v)) for v in fi["x"]]
-        lam = Fr(b2f(fi["lambda"]))
-        q = [Fr(v) for v in SC.floats(fi["q_vectors"])]
-        k = [Fr(v) for v in SC.floats(fi["loop_momenta"])]
-        v = Fr(b2f(fi["v"]))
-        shifts = [[Fr(s) for s in sh] for sh in n["shifts"]]
-        masses = [Fr(mm) for mm in n["masses"]]
-        Lx = X.l_matrix(x, n["sig"])
-        kappa = X.cond_estimate(Lx)
-        vex, ratio, _, inv, us = X.v_poly(x, n["sig"], shifts, masses)
-        if kappa is None or kappa > Fr(10) ** 8 or ratio is None or ratio > Fr(10) ** 8 or lam <= 0:
+        res = energy_and_shift(c, fi)
+        if res is None:
             skipped += 1
             continue
-        # energy identity: sum_e x_e (|q_e|^2 + m_e^2) = v (1 + |q|^2 / (2 lambda)),  q_e = sum_l S_el k_l + p_e
-        lhs = Fr(0)
-        for e in range(E):
-            qe = [sum(n["sig"][e][l] * k[l * D + d] for l in range(L)) + shifts[e][d] for d in range(D)]
-            lhs += x[e] * (sum(t * t for t in qe) + masses[e] ** 2)
-        rhs = v * (1 + sum(t * t for t in q) / (2 * lam))
-        tol = 1e-10 * float(kappa) * float(ratio)
-        bad = []
-        if not rel_close(float(lhs), float(rhs), max(tol, 1e-10)):
-            bad.append("sum x_e(|q_e|^2+m_e^2) = %r but v(1+|q|^2/(2 lambda)) = %r [kappa %.3g]" % (float(lhs), float(rhs), float(kappa)))
-        # shift = L^-1 u
-        sh = SC.floats(fi["shift"])
-        for l in range(L):
-            for d in range(D):
-                ex = sum(inv[l][j] * us[j][d] for j in range(L))
-                scale = float(sum(abs(inv[l][j] * us[j][d]) for j in range(L))) + 1e-300
-                if abs(sh[l * D + d] - float(ex)) > 1e-11 * float(kappa) * scale:
-                    bad.append("shift[%d][%d] = %r, (L^-1 u) = %r" % (l, d, sh[l * D + d], float(ex)))
+        bad, info = res
         if bad:
             rep.violation("property", "; ".join(bad[:3]), case=c, failing_input=True, what="energy identity / shift fails on the returned loop momenta")
-        rep.sample(dict(family=c["family"], L=L, D=D, lambda_=float(lam), energy_lhs=float(lhs), energy_rhs=float(rhs)))
+        rep.sample(info)
     rep.cov["skipped_ill_conditioned"] = skipped
     rep.cov["rule"] = ("accepted connected graphs with 1..4 loops, D=1..6, masses and shifts; loop_momenta and shift vs the whole-pipeline model and vs the model's momentum "
                        "stage fed with the implementation's own x, lambda, q; then the energy identity and shift = L^-1 u in exact rationals on the implementation's outputs "
